@@ -136,6 +136,13 @@ def run_cr(c):
     shape = coll_shape(c["coll"])
     if c["coll"]:
         args = [stack(a, shape) if i % 2 == 0 else a for i, a in enumerate(args)]
+    if form == "from_point2" and c["coll"] == 2 and not c["transform"] and "from_point" in kw:
+        # the view points as a collection that mixes a finite point with a point at infinity (a direction off the line)
+        A_, B_ = (np.array([float(x) for x in c[k]]) for k in ("A", "B"))
+        for dv in ([1.0, 0.0, 0.0], [0.0, 1.0, 0.0], [1.0, 1.0, 0.0], [2.0, -1.0, 0.0]):
+            if abs(np.linalg.det(np.stack([A_, B_, np.array(dv)]))) > 0.5:
+                kw = {"from_point": G.PointCollection(np.stack([np.asarray(kw["from_point"].array, float), np.array(dv)]))}
+                break
     num, den = cr_exact(pars)
     site = f"crossratio:{form}" + (":transformed" if c["transform"] else "") + (":coll" if c["coll"] else "") + (">=64" if isinstance(c["coll"], str) else "")
     r, f = call(site, lambda: crossratio(*args, **kw))
@@ -184,6 +191,8 @@ def cr_labels(c):
         out.append("transformed")
     if isinstance(c["coll"], str):
         out.append("collection>=64" + ("-several-axes" if "x" in c["coll"] else ""))
+    if c["form"] == "from_point2" and c["coll"] == 2 and not c["transform"]:
+        out.append("viewpoints-finite-and-at-infinity")
     if c.get("ipars") and c["form"] in ("points1", "points2", "points3", "from_point2") and any(x[0] or x[1] for x in c["ipars"]):
         out.append("complex-parameters")
     return out
@@ -315,7 +324,7 @@ LAWS = [
     Law("crossratio", lambda tier: cr_case(tier), run_cr, cr_nontrivial, cr_labels, {"quick": 3000, "thorough": 60000},
         "closed-form value for every form (points 1D/2D/3D, concurrent lines 2D/3D, from_point, coaxial planes), argument orders "
         "abcd/badc/cdab/abdc/acbd (the symmetry relations), invariance under a projective map", shard=400,
-        mandatory=("special-vertex", "endpoint-parameter", "transformed", "lines2", "planes3", "points1", "complex-parameters", "collection>=64-several-axes")),
+        mandatory=("special-vertex", "endpoint-parameter", "transformed", "lines2", "planes3", "points1", "complex-parameters", "collection>=64-several-axes", "viewpoints-finite-and-at-infinity")),
     Law("crossratio_clustered_1d", lambda tier: cluster_case(tier), run_cluster, lambda c: abs(c["N"]) >= 1000, lambda c: [f"N={c['N']}"], {"quick": 400, "thorough": 5000},
         "four integer points N+o_i of P^1 (|N| up to 1e6, exact determinants): value depends on the offsets only", shard=400),
     Law("harmonic_set", lambda tier: hs_case(tier), run_hs, lambda c: True, lambda c: [f"d{c['d']}", "coll" if c["coll"] else "single"] + (["big-integers"] if c.get("bigint") else []),
